@@ -6,7 +6,8 @@ words, '*', trailing '~'); it never calls annet's compile_row_regexp.
 import copy
 from collections import OrderedDict as odict
 
-HEADS = ["alpha", "beta", "gamma", "delta", "eps", "zeta", "eta", "theta", "iota", "kappa"]
+# (some head words merely BEGIN with a vendor's negation prefix: 'notify', 'undolog' are ordinary commands)
+HEADS = ["alpha", "beta", "gamma", "delta", "eps", "zeta", "eta", "theta", "iota", "kappa", "notify", "undolog", "node"]
 BLOCK_HEADS = ["interface", "vrf", "group", "policy", "zone"]
 GLOBAL_HEADS = ["gdesc", "gnote"]
 KEYS = ["k1", "k2", "k3", "10", "20"]
